@@ -133,6 +133,7 @@ PROPERTIES = {
             {"group": "cli", "name": "c18_cli_shell_2w12", "mem_gb": 4, "covers": ["shell command built, metacharacters kept"], "bounds": "--shell=sh: two words of 1 and 2 bytes joined by exactly one space"},
             {"group": "cli", "name": "c18_cli_shell_2w21", "mem_gb": 4, "covers": ["shell command built, metacharacters kept"], "bounds": "--shell=sh: two words of 2 and 1 bytes"},
             {"group": "cli", "name": "c18_cli_shell_concrete_words", "mem_gb": 4, "covers": ["concrete three-word command built"], "bounds": "--shell=sh, three concrete words ('a b', '', \"c'd\"): joined verbatim by single spaces (added after seed r3-c18-cli-1 made the symbolic-byte harnesses run out of budget)"},
+            {"group": "cli", "name": "c18_cli_exec_concrete_single_word", "mem_gb": 4, "covers": ["single word with blanks kept whole"], "bounds": "--no-shell with one concrete word containing blanks, a tab and a quote: Exec{prog = the word, args = []} (added after seed r4-noshell-single-word-split made the symbolic-byte harness hit its wall cap)"},
             {"group": "cli", "name": "c18_cli_shell_multiword", "mem_gb": 4, "covers": ["multi-word shell command built"], "bounds": "--shell='bash  -e\\t-u' (concrete, mixed whitespace), two concrete command words: prog = first word, options = the rest in order, -c, command joined by single spaces"},
             {"group": "cli", "name": "c18_cli_empty_shell", "mem_gb": 4, "covers": ["empty shell rejected"], "bounds": "--shell='' must be an error"},
         ],
